@@ -350,7 +350,7 @@ def run(body, mode, params):
     finally:
         _CURRENT[0] = None
 
-    if failure is not None and failure.sig is not None and failure.sig in STATE.known_open:
+    if failure is not None and failure.sig is not None and (failure.sig in STATE.known_open or os.environ.get("VERIF_COLLECT_SIGS")):
         STATE.known_hits[failure.sig] = STATE.known_hits.get(failure.sig, 0) + 1
         if failure.sig + "#example" not in STATE.known_hits:
             with NoTracing():
